@@ -109,6 +109,22 @@ impl Ctx {
             r.evaluations += hi - lo;
             r
         };
+        let trace = std::env::var("VERIF_TRACE_CASES").is_ok();
+        if trace {
+            // tiny families in the unoptimised configuration: name every case before running it, single-threaded,
+            // so that a death without a panic (stack overflow) can still be tied to its case
+            let mut r = Report::new();
+            for i in 0..n {
+                eprintln!("CASE {}:{}", name, i);
+                guard::set_current_family(name);
+                guard::set_current_index(i);
+                f(i, &mut r);
+            }
+            r.evaluations += n;
+            rep.merge(r);
+            rep.families.push(FamilyInfo { name: name.to_string(), description: description.to_string(), evaluations: n, exhaustive, ..Default::default() });
+            return;
+        }
         let a = run_range(0, first_end);
         let b = run_range(0, first_end);
         if a.digest() != b.digest() {
